@@ -401,9 +401,15 @@ func samePortReply(s *Sink, T time.Duration) {
 		st := time.Now()
 		e, cerr := u.GetEvent(800000081, 77)
 		dur := time.Since(st)
-		ctl.Close()
+		defer ctl.Close()
 		if cerr != nil && strings.Contains(cerr.Error(), "address already in use") {
 			continue // the port was taken in the meantime
+		}
+		if cerr == nil { // set-door-control-state: the controller's reply is byte for byte the request
+			if dcs, derr := u.SetDoorControlState(800000081, 3, types.NormallyClosed, 7); derr != nil || dcs == nil {
+				s.Fail(map[string]any{"op": "same-port-reply", "fault": "same-port-reply", "path": "broadcast"},
+					fmt.Sprintf("a reply identical to its request (set-door-control-state), from a controller whose port number equals the client's bind port, was not accepted: %v", derr))
+			}
 		}
 		if cerr != nil || e == nil || e.Index != 77 {
 			s.Fail(map[string]any{"op": "same-port-reply", "fault": "same-port-reply", "path": "broadcast", "dur_ms": ms(dur)},
